@@ -80,9 +80,9 @@ bool parse_responses(std::string const& s, std::vector<Resp>& out, std::string& 
 	return true;
 }
 
-struct Scn { std::vector<int> seq; bool keep_alive; std::vector<int> cuts; int spacing_ms; int stop_at_ms; /* -1 = no stop */ };
+struct Scn { std::vector<int> seq; bool keep_alive; std::vector<int> cuts; int spacing_ms; int stop_at_ms; /* -1 = no stop */ int stop_at_boundary = -1; /* >= 0: stop() is called at that event boundary of the run (step hook): after the k-th handler execution or round top */ };
 
-struct Res { std::vector<std::string> fails; std::string got; uint64_t transitions = 0; bool eof = false; };
+struct Res { std::vector<std::string> fails; std::string got; uint64_t transitions = 0; bool eof = false; int boundaries = 0; };
 
 Res run_scn(Scn const& sc)
 {
@@ -110,13 +110,17 @@ Res run_scn(Scn const& sc)
 		asio::async_write(cli, asio::buffer(pc), [&](error_code const& ec, std::size_t) { ++R.transitions; if (ec) return;
 			if (sc.spacing_ms == 0) send_next(); else { gap.expires_after(ms(sc.spacing_ms)); gap.async_wait([&](error_code const& e2) { if (!e2) send_next(); }); } });
 	};
-	cli.async_connect(ip::tcp::endpoint(addr("10.0.1.1"), 8080), [&](error_code const& ec) { ++R.transitions; if (ec) { if (ec != asio::error::operation_aborted && !(sc.stop_at_ms >= 0 && ec == asio::error::connection_refused)) fail("connect: first client: " + ecs(ec)); return; } connected = true; reader(); send_next(); });
+	cli.async_connect(ip::tcp::endpoint(addr("10.0.1.1"), 8080), [&](error_code const& ec) { ++R.transitions; if (ec) { if (ec != asio::error::operation_aborted && !((sc.stop_at_ms >= 0 || sc.stop_at_boundary >= 0) && ec == asio::error::connection_refused)) fail("connect: first client: " + ecs(ec)); return; } connected = true; reader(); send_next(); });
 	bool stopped = false;
 	if (sc.stop_at_ms >= 0) { stopper.expires_after(ms(sc.stop_at_ms)); stopper.async_wait([&](error_code const& ec) { if (ec) return; srv->stop(); stopped = true; }); }
-	sim.run();
+	int boundary = 0;
+	if (sc.stop_at_boundary >= 0) Hook::set([&](int) { if (boundary++ == sc.stop_at_boundary && !stopped) { srv->stop(); stopped = true; } });
+	try { sim.run(); } catch (...) { Hook::clear(); throw; }
+	Hook::clear(); R.boundaries = boundary;
+	bool const with_stop = sc.stop_at_ms >= 0 || (sc.stop_at_boundary >= 0 && stopped);
 	R.eof = eofs > 0;
 	std::vector<Resp> want; bool want_eof, want_stall; reference(sc.seq, sc.keep_alive, want, want_eof, want_stall);
-	if (sc.stop_at_ms < 0) {
+	if (!with_stop) {
 		std::vector<Resp> got; std::string err;
 		if (!parse_responses(R.got, got, err)) fail("framing: " + err);
 		else {
@@ -132,9 +136,14 @@ Res run_scn(Scn const& sc)
 		}
 		if (connected && R.eof != want_eof) fail(fmt("eof: the connection was %s, expected it to %s", R.eof ? "closed by the server" : "kept open", want_eof ? "be closed" : "stay open"));
 	} else {
-		// with stop(): whatever was answered must be a prefix of the reference answers
-		std::string all; for (auto& x : want) all += x.exact ? x.raw : std::string();
-		(void)all;
+		// with stop(): whatever was answered must be a prefix of the reference answers (the last response may be cut short)
+		std::vector<Resp> got; std::string err; parse_responses(R.got, got, err); // keeps the complete responses it found
+		if (got.size() > want.size()) fail(fmt("count: with stop() the client received %zu complete responses, only %zu requests are due an answer", got.size(), want.size()));
+		for (size_t i = 0; i < std::min(got.size(), want.size()); ++i) {
+			if (want[i].exact) { if (got[i].raw != want[i].raw) fail(fmt("response: (with stop()) response %zu is not the registered handler's output", i)); }
+			else { if (got[i].status != want[i].status) fail(fmt("status: (with stop()) response %zu has status %d, expected %d", i, got[i].status, want[i].status));
+				if (want[i].status != 404 && want[i].status != 301 && got[i].body != want[i].body) fail(fmt("body: (with stop()) response %zu carries %zu body bytes, expected %zu", i, got[i].body.size(), want[i].body.size())); }
+		}
 	}
 	// the next client is accepted and served (unless the server was stopped or the first connection is still open and stalled/kept alive: close it first)
 	error_code ig; cli.close(ig); sim.run();
@@ -176,10 +185,10 @@ struct HttpEngine : Engine
 	void one(Ctx& ctx, uint64_t u, Scn const& s)
 	{
 		if (!ctx.next_case()) return;
-		Case c; c.set("u", (long long)u).set_ints("cuts", s.cuts).set("sp", s.spacing_ms).set("stop", s.stop_at_ms).set("thorough", ctx.args.thorough() ? 1 : 0);
+		Case c; c.set("u", (long long)u).set_ints("cuts", s.cuts).set("sp", s.spacing_ms).set("stop", s.stop_at_ms).set("stopb", s.stop_at_boundary).set("thorough", ctx.args.thorough() ? 1 : 0);
 		ctx.begin(c);
 		Res r = run_scn(s);
-		ctx.R.transitions += r.transitions; ctx.state(fmt("%llu|", (unsigned long long)u) + c.str("cuts") + fmt("|%d|%d", s.spacing_ms, s.stop_at_ms)); ctx.outcome(fmt("%llx/%d", (unsigned long long)fnv(r.got), int(r.eof)));
+		ctx.R.transitions += r.transitions; ctx.state(fmt("%llu|", (unsigned long long)u) + c.str("cuts") + fmt("|%d|%d|%d", s.spacing_ms, s.stop_at_ms, s.stop_at_boundary)); ctx.outcome(fmt("%llx/%d", (unsigned long long)fnv(r.got), int(r.eof)));
 		auto clause_of = [](std::string const& x) { return x.substr(0, x.find(':')); };
 		for (auto& f : r.fails) add_violation(ctx, clause_of(f), c, scn_str(s) + ": " + f, clause_of(f));
 		if (ctx.R.samples.empty() && s.cuts.size() == 1 && s.seq.size() == 2) ctx.R.sample(scn_str(s) + fmt(" => %zu bytes received, eof=%d", r.got.size(), int(r.eof)));
@@ -195,12 +204,20 @@ struct HttpEngine : Engine
 		size_t step = ctx.args.thorough() ? 5 : 11;
 		for (size_t c1 = 1; c1 < len; c1 += step) for (size_t c2 = c1 + 1; c2 < len; c2 += step) { Scn t = s; t.cuts = { int(c1), int(c2) }; t.spacing_ms = 1; one(ctx, u, t); } // pairs on a grid
 		for (int st : { 0, 1, 2, 3, 4, 5, 7, 50 }) { Scn t = s; t.stop_at_ms = st; one(ctx, u, t); if (len > 30) { t.cuts = { int(len / 2) }; t.spacing_ms = 3; one(ctx, u, t); } }
+		if (s.seq.size() <= 2) { // stop() at every event boundary of the run (sequences of up to two requests, one write and a write cut in the middle)
+			for (int variant = 0; variant < (len > 30 ? 2 : 1); ++variant) {
+				Scn t = s; if (variant) { t.cuts = { int(len / 2) }; t.spacing_ms = 3; }
+				t.stop_at_boundary = 1 << 30; Res base = run_scn(t); // counts the boundaries of the undisturbed run
+				for (int k = 0; k < base.boundaries; ++k) { t.stop_at_boundary = k; one(ctx, u, t); }
+				ctx.R.counters["stop_boundaries"] += uint64_t(base.boundaries);
+			}
+		}
 		ctx.R.bounds["requests_per_sequence"] = 3; ctx.R.bounds["cuts"] = 2;
 	}
 	int replay(Case const& c, Args const& a) override
 	{
 		Args a2 = a; a2.tier = c.num("thorough") ? "thorough" : "quick"; units(a2);
-		uint64_t u = uint64_t(c.num("u")); Scn s; s.seq = seqs.at(size_t(u / 2)); s.keep_alive = u % 2 == 0; s.cuts = c.ints("cuts"); s.spacing_ms = int(c.num("sp")); s.stop_at_ms = int(c.num("stop", -1));
+		uint64_t u = uint64_t(c.num("u")); Scn s; s.seq = seqs.at(size_t(u / 2)); s.keep_alive = u % 2 == 0; s.cuts = c.ints("cuts"); s.spacing_ms = int(c.num("sp")); s.stop_at_ms = int(c.num("stop", -1)); s.stop_at_boundary = int(c.num("stopb", -1));
 		vf_quiet = 1; Res r = run_scn(s); vf_quiet = 0;
 		std::fprintf(stdout, "%s\nclient received (%zu bytes, eof=%d): %s\n", scn_str(s).c_str(), r.got.size(), int(r.eof), jesc(r.got.substr(0, 600)).c_str());
 		for (auto& f : r.fails) std::fprintf(stdout, "VIOLATION %s\n", f.c_str());
